@@ -21,7 +21,8 @@ func init() {
 			"R2 reference-check coverage: PushManifest's store into manifests is dominated by checkManifest(...) == nil, whose switch on the reference kind has an arm for every kind constant, tests presence in blobs for blob references and in manifests for manifest references and does not test subjects; the media-type table has iterators for the OCI image manifest and image index types; " +
 			"R3 listings are sorted snapshots: every slice reaching SliceSeq in ocimem was sorted after its last append (the lock discipline of the snapshot is decided under C08); " +
 			"R4 all-or-nothing: once an operation has mutated tags, manifests or blobs no failure return is reachable, so a rejected push or delete leaves the content state (in particular tag bindings) as it was. " +
-			"R2b validate-before-bind: in PushManifest every store into the manifests or tags map is dominated by a successful checkManifest (no short cut for content that is already stored).",
+			"R2b validate-before-bind: in PushManifest every store into the manifests or tags map is dominated by a successful checkManifest (no short cut for content that is already stored). " +
+			"R2c manifest JSON is decoded as a whole (json.Unmarshal, or a Decoder that is asked for more); R5 no repository is ever removed from Registry.repos.",
 		NotDecided: "equivalence with the reference model over operation histories (found-until-deleted, last-tag-wins, referrers set equality, which histories succeed) is not decided.",
 		Technique:  "static analysis: SSA dominance of lookup-miss conditions over returns, %w provenance of error values, switch exhaustiveness",
 	})
